@@ -367,14 +367,22 @@ def eval_case(ctx: Ctx, case: dict, stats: bool = False):
         pt = _tmux_term(w, h)
         pt.fresh(force_placeholders=bool(case.get("force")))
     else:
+        nq = [0]
+
         def responder(prefix: bytes) -> bytes:
-            return spec_term(d, cur["w"], cur["h"], prefix[cur["base"]:])["last"]
+            reply = spec_term(d, cur["w"], cur["h"], prefix[cur["base"]:])["last"]
+            noise = case.get("noise")
+            if noise:
+                # typed-ahead input (key presses, other reports) that reaches the application before the terminal's reply
+                reply = bytes.fromhex(noise[nq[0] % len(noise)]) + reply
+                nq[0] += 1
+            return reply
 
         pt = ptyterm.PtyTerm(w, h, responder, force_placeholders=bool(case.get("force")), buffered_display=bool(case.get("buffered")))
     gt = pt.term
     try:
         mstate = ("N", "0")
-        model_ok = True
+        model_ok = not case.get("noise")     # the tracker model reads replies only; histories with typed-ahead input are judged by F alone
         for idx, op in enumerate(case["ops"]):
             if op["op"] == "resize":
                 if not pt.wait_seen():
@@ -584,6 +592,11 @@ def check_case(ctx: Ctx, case: dict):
 def _vals(rng, w, h):
     return [0, 0, 1, 1, 2, 3, w - 1, w, w + 1, h - 1, h, h + 1, 100, 1000, rng.randrange(0, max(w, h) + 2)]
 
+
+# what may sit in the input queue in front of a cursor position report: keys with and without modifiers (CSI 1;5A = Ctrl+Up),
+# function keys, a focus event, a bracketed paste marker, a mouse report, text that looks like a report, a truncated CSI
+NOISE = [b"\x1b[1;5A", b"\x1b[A", b"x", b"\x1b[1;2B\x1b[1;2B", b"\x1bOP", b"\x1b[15~", b"\x1b[I", b"\x1b[200~", b"\x1b[<0;3;4M", b"7;9", b"\x1b[3;4",
+         b"\x1b[1;5A\x1b[1;3C"]
 
 WRITE_VOCAB = [
     b"a", b"hello", b"\r", b"\n", b"\r\n", b"\x1bE", b"\x1bD", b"\x1bM", b"\x1b7", b"\x1b8", b"\x1b[s", b"\x1b[u",
@@ -798,6 +811,12 @@ def structured(w, h):
             case("write-str-text", [{"op": "reset", "rbs": False}, {"op": "mva", "col": 0, "row": min(2, h - 1)},
                                     {"op": "write", "hex": txt.encode().hex(), "str": True}, {"op": "getposT"}, {"op": "mv", "right": 1},
                                     {"op": "getpos"}, {"op": "write", "hex": txt.encode().hex(), "str": True}, {"op": "mv", "down": 1}])
+    # typed-ahead input in front of the reply to a position query: whatever the object makes of it (it may raise), it must not
+    # claim a position the cursor is not at
+    for nz in NOISE:
+        case("typed-ahead-before-report", [{"op": "reset", "rbs": False}, {"op": "mva", "col": min(9, w - 1), "row": min(2, h - 1)},
+                                           {"op": "write", "hex": b"ab".hex()}, {"op": "getpos"}, {"op": "mv", "right": 1}, {"op": "getposT"},
+                                           {"op": "mv", "down": 1}], noise=[nz.hex(), ""])
     case("nel-after-write", [{"op": "write", "hex": b"ab\x1bE".hex()}, {"op": "getposT"}, {"op": "mv", "up": 1}, {"op": "writecmd", "hex": b"\x1bE".hex()},
                              {"op": "put", "id": ID, "pid": 0, "rows": 1, "cols": 1, "C": None}])
     # forced-placeholder puts: every branch
@@ -1045,6 +1064,13 @@ def cases(ctx: Ctx):
             yield random_resize(rrng)
         if n_random % 5 == 0:
             yield random_errors(erng)
+        if n_random % 7 == 0:
+            # typed-ahead input in front of the replies (own generator: the other histories stay what they were)
+            nw, nh = erng.choice(SIZES)
+            nops = [{"op": "reset", "rbs": False}] + [gen_op(erng, nw, nh, k) if erng.random() < 0.6 else {"op": erng.choice(["getpos", "getposT", "mv"])}
+                                                       for k in range(erng.choice([4, 8, 16]))]
+            yield {"w": nw, "h": nh, "name": "random-typed-ahead", "force": erng.random() < 0.3, "ops": nops,
+                   "noise": [erng.choice(NOISE).hex() if erng.random() < 0.7 else "" for _ in range(3)]}
         w, h = rng.choice(SIZES)
         n = rng.choice([3, 6, 12, 25, 40, 60])
         ops = [gen_op(rng, w, h, k) for k in range(n)]
@@ -1067,7 +1093,7 @@ def run(ctx: Ctx):
                 "in which the window is RESIZED between calls (op resize = TIOCSWINSZ then reset(): 12 size pairs grow/shrink/mixed/same x "
                 "absolute and relative moves to the old and new corners, first use of the size after the resize, resizing back, "
                 "pending-wrap queries, reset by scrolling, forced-placeholder puts clipped at the new edges, buffered display), followed by "
-                "random histories (every 4th with 1..4 resizes between segments, every 5th with about a third of its calls raising); distinct = canonical JSON; non-trivial = the history leaves the position known after at least one call")
+                "random histories (every 4th with 1..4 resizes between segments, every 5th with about a third of its calls raising, every 7th with typed-ahead input in front of the position reports); typed-ahead input (12 kinds: modified keys, function keys, focus / paste / mouse reports, report look-alikes) in front of a queried report; window size changes WITHOUT reset followed by an absolute move; distinct = canonical JSON; non-trivial = the history leaves the position known after at least one call")
     budget = 105 if ctx.quick else 330
     if CORPUS.is_dir():
         for f in sorted(CORPUS.glob("*.json")):
@@ -1110,9 +1136,10 @@ def run(ctx: Ctx):
             def tmux_cases():
                 # (histories with a resized window run on the pty backend only)
                 for c in gens:
-                    yield c
+                    if not c.get("noise"):          # typed-ahead input can only be injected on the pty backend
+                        yield c
                 for c in cases(ctx):
-                    if c.get("name") == "random":
+                    if c.get("name") == "random" and not c.get("noise"):
                         yield c
 
             for c in tmux_cases():
